@@ -59,8 +59,13 @@ def run(c, facts, tier):
             ms0, rep = unwrap(n["items"][0]["p"]), unwrap(n["items"][1]["p"])
             if rep["t"] == "rep" and ms0["t"] == "set":
                 item = unwrap(rep["p"])
-                if item["t"] == "seq" and len(item["items"]) == 2 and unwrap(item["items"][0]["p"])["t"] == "ref":
-                    optfn = unwrap(item["items"][0]["p"])["fn"]
+                head = unwrap(item["items"][0]["p"]) if item["t"] == "seq" and len(item["items"]) == 2 else None
+                if head is not None and head["t"] == "seq":
+                    # option followed by a dropped guard (word boundary)
+                    kept = [unwrap(i["p"]) for i in head["items"] if i["keep"]]
+                    head = kept[0] if len(kept) == 1 and head["items"][0]["keep"] else head
+                if head is not None and head["t"] == "ref":
+                    optfn = head["fn"]
                     tail = unwrap(item["items"][1]["p"])
                     ok = rep["min"] == 0 and rep["max"] is None and ms0["min"] == 0 and n["items"][1]["keep"] and tail["t"] == "set" and tail["min"] == 0 and "GlobalOption" in optfn
     c.ob("C13.leading", inner, "blank* (option blank*)* consumed before lexing", ok, det)
